@@ -83,6 +83,7 @@ func (s *Scanner) scanNumberFragment() string {
 	var result bytes.Buffer
 
 	for s.pos < s.end {
+		verifTick(3)
 		ch, size := utf8.DecodeRune(s.text[s.pos:])
 		if ch == '_' {
 			s.tokenFlags |= TF_ContainsSeparator
@@ -208,6 +209,7 @@ func (s *Scanner) scanHexDigits(count int, scanAsManyAsPossible bool, canHaveSep
 	var underlineStart int
 	var isPreviousTokenSeparator = false
 	for (len(valueChars) < count || scanAsManyAsPossible) && s.pos < s.end {
+		verifTick(4)
 		ch, size := utf8.DecodeRune(s.text[s.pos:])
 		if canHaveSeparators && ch == '_' {
 			s.tokenFlags |= TF_ContainsSeparator
@@ -249,6 +251,7 @@ func (s *Scanner) scanString() string {
 	var contents strings.Builder
 	var start = s.pos
 	for {
+		verifTick(5)
 		if s.pos >= s.end {
 			contents.Write(s.text[start:s.pos])
 			s.error(M_Unexpected_end_of_text)
@@ -375,6 +378,7 @@ func (s *Scanner) scanIdentifierParts() string {
 	var result = ""
 	var start = s.pos
 	for s.pos < s.end {
+		verifTick(6)
 		ch, size := utf8.DecodeRune(s.text[s.pos:])
 		if s.isIdentifierPart(ch) {
 			s.pos += size
@@ -414,6 +418,7 @@ func (s *Scanner) peekCheck(n int, f func(ch rune) bool) int {
 	}
 	var start = s.pos
 	for start < s.end {
+		verifTick(7)
 		ch, size := utf8.DecodeRune(s.text[start:])
 		start += size
 		n--
@@ -442,6 +447,7 @@ func (s *Scanner) peekEqual(n int, ch rune) int {
 	}
 	var start = s.pos
 	for start < s.end {
+		verifTick(8)
 		cur, size := utf8.DecodeRune(s.text[start:])
 		start += size
 		n--
@@ -459,6 +465,7 @@ func (s *Scanner) Scan() SyntaxKind {
 	s.startPos = s.pos
 	s.tokenFlags = TF_None
 	for {
+		verifTick(1)
 		s.tokenPos = s.pos
 		if s.pos >= s.end {
 			s.token = SK_EndOfFile
@@ -659,6 +666,7 @@ func (s *Scanner) Scan() SyntaxKind {
 			if s.isIdentifierStart(ch) {
 				s.pos += size
 				for tar := s.pos; tar >= 0; tar = s.peekCheck(0, s.isIdentifierPart) {
+					verifTick(2)
 					s.pos = tar
 				}
 				s.tokenValue = string(s.text[s.tokenPos:s.pos])
@@ -770,6 +778,7 @@ func ComputeLineStarts(text []byte) []int {
 	var pos = 0
 	var lineStart = 0
 	for pos < len(text) {
+		verifTick(9)
 		ch, size := utf8.DecodeRune(text[pos:])
 		pos += size
 		switch ch {
